@@ -444,6 +444,38 @@ def run_kind_job(rnd, tier, stats, digest):
                     evaluations += 1
                 stats.probes["third_generation_runs"] += 1
 
+        # ---- directories left behind by an interrupted dump of the PREVIOUS on-disk protocol (rename to .bak, write in place):
+        # {job.npz.bak complete, job.npz fragment} and {job.npz.bak complete only}.  A job restarted into them must keep a
+        # complete file at every instant, too (dump_dict still knows about .bak files).
+        full = [(k, tree) for (k, kind, rel, n, tree) in states if n == -1 and try_load(tree.get(JOBNAME + ".npz")) is not None]
+        if full:
+            done = [h for h in history if h["end"] is not None]
+            for variant in (["fragment", "bak_only"] if tier != "quick" else [rnd.choice(["fragment", "bak_only"])]):
+                kq, tq = full[rnd.randrange(len(full))]
+                good = tq[JOBNAME + ".npz"]
+                legacy = {JOBNAME + ".npz.bak": good}
+                if variant == "fragment":
+                    legacy[JOBNAME + ".npz"] = good[:max(1, int(len(good) * rnd.choice([0.1, 0.5, 0.9])))]
+                # what had been promised: everything up to the dump this complete file belongs to
+                gl = try_load(good)
+                jj = [j for j, h in enumerate(history) if same_content(gl, h["content"])]
+                if not jj:
+                    continue
+                hist_l = [dict(h, run=0, end=(h["end"] if h["end"] is not None else h["begin"] + 1)) for h in history[:jj[-1] + 1]]
+                plan_step = {"op": "restart_legacy_dir", "variant": variant, "from_k": kq}
+                plan["steps"].append(plan_step)
+                states_l, _, _ = sim.run_job(cfg2, legacy, hist_l, 1)
+                for (k2, kind2, rel2, n2, tree2) in states_l:
+                    try:
+                        nt = judge(tree2, hist_l, k2, 1, stats, f"restart into a legacy directory ({variant}) -> crash at {kind2}({rel2}) torn={n2}")
+                    except Violation as v:
+                        v.data["step"] = dict(plan_step, second_crash={"k": k2, "torn": n2})
+                        raise
+                    evaluations += 1
+                    if nt:
+                        keys.add(f"{cfg['model_seed']}:legacy:{variant}:{k2}:{n2}")
+                stats.probes["legacy_dir_restarts"] += 1
+
         # ---- I/O error variants: the job must survive (IOError caught by evolve) and never lose the last complete dump
         for _ in range(2 if tier == "quick" else 4):
             fk = rnd.choice(["enospc", "eio", "eacces", "torn", "short"])
